@@ -142,9 +142,13 @@ class SimFS:
     def path(self, name: str) -> str:
         return os.path.join(self.root, name)
 
-    def put(self, name: str, data: bytes) -> str:
+    def put(self, name: str, data: bytes, special: bool = False) -> str:
+        """``special``: the path names a pipe / FIFO / procfs-style file: stat reports size 0 and
+        only an open-and-read delivers the content (the real file that backs the path is empty)."""
         p = self.path(name)
         self.files[p] = data
+        if special:
+            data = b""
         try:
             os.makedirs(os.path.dirname(p), exist_ok=True)
             with _real_open(p, "wb") as f:  # also materialised: code bypassing the seam reads it
